@@ -4,6 +4,7 @@ import (
 	"encoding/json"
 	"fmt"
 	"reflect"
+	"strings"
 
 	"github.com/vektah/gqlparser/v2"
 	"github.com/vektah/gqlparser/v2/ast"
@@ -155,6 +156,178 @@ func init() {
 				}
 				s.States++
 				c15ListRun(c, s, schema, c15ListCase{d, sup})
+			}
+		}
+	}
+}
+
+// directive-sites: directives on fragment spreads (also a spread repeated in one operation) and
+// inline fragments, and a built-in directive the schema declares itself with other defaults.
+
+const c15SiteSDL = `directive @dir(n: Int, d: Int = 7) repeatable on FIELD | FRAGMENT_SPREAD | INLINE_FRAGMENT
+directive @defer(if: Boolean = false, label: String = "main") on FRAGMENT_SPREAD | INLINE_FRAGMENT
+directive @include(if: Boolean! = false, why: String = "w") on FIELD | FRAGMENT_SPREAD | INLINE_FRAGMENT
+type Query { g: Int q: Query }
+`
+
+type c15SiteCase struct {
+	Query string           `json:"query"`
+	Vars  map[string]any   `json:"vars"`
+	Want  []map[string]any `json:"want"` // per directive, in document order (operations first, then fragments)
+}
+
+var c15SiteCases = []c15SiteCase{
+	{`query Q($n: Int) { ...F @dir(n: $n) ...F @dir(n: 2) ...F @dir } fragment F on Query { g }`, map[string]any{"n": 5},
+		[]map[string]any{{"n": 5, "d": 7}, {"n": 2, "d": 7}, {"d": 7}}},
+	{`query Q($n: Int = 3) { q { ...F @dir(n: $n, d: 1) } ...F @dir(d: $n) } fragment F on Query { g @dir(n: 9) }`, map[string]any{},
+		[]map[string]any{{"n": 3, "d": 1}, {"d": 3}, {"n": 9, "d": 7}}},
+	{`{ ... @defer { g } ... @defer(label: "x") { g } ...F @defer(if: true) } fragment F on Query { g }`, map[string]any{},
+		[]map[string]any{{"if": false, "label": "main"}, {"if": false, "label": "x"}, {"if": true, "label": "main"}}},
+	{`{ g @include ... @include(if: true) { g } }`, map[string]any{},
+		[]map[string]any{{"if": false, "why": "w"}, {"if": true, "why": "w"}}},
+	{`query Q($c: Boolean!) { ...F @include(if: $c) @dir ...F @include(if: $c, why: "again") @dir(n: 1) @dir(n: 2) } fragment F on Query { g }`, map[string]any{"c": true},
+		[]map[string]any{{"if": true, "why": "w"}, {"d": 7}, {"if": true, "why": "again"}, {"n": 1, "d": 7}, {"n": 2, "d": 7}}},
+}
+
+func c15DirectivesInOrder(doc *ast.QueryDocument) []*ast.Directive {
+	var out []*ast.Directive
+	var sel func(ss ast.SelectionSet)
+	sel = func(ss ast.SelectionSet) {
+		for _, x := range ss {
+			switch n := x.(type) {
+			case *ast.Field:
+				out = append(out, n.Directives...)
+				sel(n.SelectionSet)
+			case *ast.FragmentSpread:
+				out = append(out, n.Directives...)
+			case *ast.InlineFragment:
+				out = append(out, n.Directives...)
+				sel(n.SelectionSet)
+			}
+		}
+	}
+	for _, op := range doc.Operations {
+		out = append(out, op.Directives...)
+		sel(op.SelectionSet)
+	}
+	for _, f := range doc.Fragments {
+		out = append(out, f.Directives...)
+		sel(f.SelectionSet)
+	}
+	return out
+}
+
+func c15SiteRun(c *explore.Ctx, s *explore.SubStats, schema *ast.Schema, cs c15SiteCase) {
+	rendered := cs.Query + "   variables=" + goRepr(cs.Vars)
+	explore.Crumb(s.Name, rendered)
+	s.Executions++
+	bad := func(key, detail, exp, obs string) {
+		c.Report(s, explore.Violation{Key: key, Input: explore.J(cs), Rendered: rendered, Detail: detail, Expected: exp, Observed: obs})
+	}
+	doc, errs := gqlparser.LoadQuery(schema, cs.Query)
+	if errs != nil {
+		s.Skipped++
+		s.Outcome("invalid-document")
+		return
+	}
+	coerced, cerr := validator.VariableValues(schema, doc.Operations[0], cs.Vars)
+	if cerr != nil {
+		s.Skipped++
+		s.Outcome("coercion-refused")
+		return
+	}
+	s.Validated++
+	ds := c15DirectivesInOrder(doc)
+	if len(ds) != len(cs.Want) {
+		bad("args/directive-count", fmt.Sprintf("the document has %d directives, the case lists %d", len(ds), len(cs.Want)), "", "")
+		return
+	}
+	for i, d := range ds {
+		var got map[string]any
+		r := guarded(0, 0, func() { got = d.ArgumentMap(coerced) })
+		s.Transitions++
+		if r.Panicked {
+			bad("args/panic directive-site site="+r.Site, fmt.Sprintf("ArgumentMap of directive %d (@%s) panicked on a validated document: %s", i, d.Name, r.PanicVal), goRepr(cs.Want[i]), "")
+			continue
+		}
+		if !reflect.DeepEqual(normNum(normAny(got)), normNum(normAny(cs.Want[i]))) {
+			bad("args/value directive-site @"+d.Name, fmt.Sprintf("directive %d (@%s)", i, d.Name), goRepr(cs.Want[i]), goRepr(got))
+		}
+	}
+	s.Nontrivial++
+	s.Outcome("ok")
+	s.Sample(func() any { return rendered })
+}
+
+func init() {
+	prev := registry["C15"].Run
+	registry["C15"].Run = func(c *explore.Ctx) {
+		prev(c)
+		s := c.Sub("directive-sites", fmt.Sprintf("%d documents with several directives each, and the product {field, first / second / third (nested) spread of one fragment, inline fragment, inline fragment inside a fragment} × {@dir, @defer, @include — the latter two declared by the schema itself with other defaults and an extra argument} × {argument omitted, literal, variable with default, variable supplied, variable without value}", len(c15SiteCases)),
+			"ArgumentMap of every directive of the document returns normally and equals literal > variable > the default of the schema's own declaration", "cases that validate and coerce")
+		if s == nil || c.Shard != 0 {
+			return
+		}
+		schema, err := gqlparser.LoadSchema(&ast.Source{Name: "c15s.graphql", Input: c15SiteSDL})
+		if err != nil {
+			panic(err)
+		}
+		for _, cs := range c15SiteCases {
+			s.States++
+			c15SiteRun(c, s, schema, cs)
+		}
+		// the product: site × directive × source of its first argument
+		type dirSpec struct {
+			name, arg, argType, lit string
+			litVal                  any
+			defaults                map[string]any
+			onField                 bool
+		}
+		dirs := []dirSpec{
+			{"dir", "n", "Int", "4", 4, map[string]any{"d": 7}, true},
+			{"defer", "label", "String", `"L"`, "L", map[string]any{"if": false, "label": "main"}, false},
+			{"include", "why", "String", `"y"`, "y", map[string]any{"if": false, "why": "w"}, true},
+		}
+		sites := []struct{ name, tmpl string }{
+			{"field", `{ g § }`},
+			{"first-spread", `{ ...F § ...F } fragment F on Query { g }`},
+			{"second-spread", `{ ...F ...F § } fragment F on Query { g }`},
+			{"third-spread-nested", `{ ...F q { ...F q { ...F § } } } fragment F on Query { g }`},
+			{"inline", `{ ... § { g } }`},
+			{"inline-in-fragment", `{ ...F } fragment F on Query { ... on Query § { g } }`},
+		}
+		for _, site := range sites {
+			for _, d := range dirs {
+				if site.name == "field" && !d.onField {
+					continue
+				}
+				for _, src := range []string{"omitted", "literal", "variable-default", "variable-supplied", "variable-absent"} {
+					want := map[string]any{}
+					for k, v := range d.defaults {
+						want[k] = v
+					}
+					head, use, vars := "query Q ", "@"+d.name, map[string]any{}
+					switch src {
+					case "literal":
+						use += "(" + d.arg + ": " + d.lit + ")"
+						want[d.arg] = d.litVal
+					case "variable-default":
+						head = "query Q($v: " + d.argType + " = " + d.lit + ") "
+						use += "(" + d.arg + ": $v)"
+						want[d.arg] = d.litVal
+					case "variable-supplied":
+						head = "query Q($v: " + d.argType + ") "
+						use += "(" + d.arg + ": $v)"
+						vars["v"] = d.litVal
+						want[d.arg] = d.litVal
+					case "variable-absent":
+						head = "query Q($v: " + d.argType + ") "
+						use += "(" + d.arg + ": $v)" // no value at all: the argument's default, if any
+					}
+					q := head + strings.Replace(site.tmpl, "§", use, 1)
+					s.States++
+					c15SiteRun(c, s, schema, c15SiteCase{Query: q, Vars: vars, Want: []map[string]any{want}})
+				}
 			}
 		}
 	}
